@@ -351,7 +351,7 @@ func genC08(ctx *Ctx) {
 		ver  primitive.ProtocolVersion
 		comp string
 	}{{4, ""}, {4, "lz4"}, {3, ""}, {5, ""}, {4, "snappy"}, {66, ""}, {5, "lz4"}}
-	for round := 0; round < ctx.Scale(6, 40); round++ {
+	for round := 0; round < ctx.Scale(6, 160); round++ {
 		n := 2 + r.Intn(3)
 		var hs []int
 		for i := 1; i <= n; i++ {
